@@ -160,7 +160,17 @@ func runC07(rc *RunCtx) {
 			return
 		}
 	}
+	if sc2 == nil && !rc.Scen.Has("cutmode") && !sc.LongSilence && !sc.IsExc && totalGap(sc.Chunks) == 0 && rc.Scen.Chance(1, 150) {
+		sc.Marathon = 260 + rc.Scen.Choose(80) // past 256 repetitions of the same poll
+		sc.ReadTimeout = max(sc.ReadTimeout, 100*time.Millisecond)
+	}
 	out := RunC1(rc, sc)
+	if sc.Marathon > 0 && out.Returned && out.Err == nil {
+		rc.Fault("same_poll_repeated_300_times", out.MarathonDone == sc.Marathon)
+		if out.MarathonBad != "" || (out.MarathonDone != sc.Marathon && (out.Hang || out.OverStep)) {
+			rc.Violate("fails_after_many_calls", fmt.Sprintf("client=%s|fc=%d", sc.Kind, sc.Req.FC), "%s (after %d good repetitions; hang=%v overstep=%v)", out.MarathonBad, out.MarathonDone, out.Hang, out.OverStep)
+		}
+	}
 	rc.Desc = sc.describe()
 	rc.Nontrivial = len(sc.Chunks) >= 2
 	if out.Err == nil && !isNilResponse(out.Resp) && len(out.Consumed)%2 == 1 {
